@@ -100,6 +100,7 @@ class Trace:
         self.data_ids = {}
         self.last_sock = None
         self.pokes = []            # (time, record id): cache entries the scenario planted itself
+        self.call_no = 0           # number of `Zeroconf.async_send` calls so far: datagrams of one call are one `DNSOutgoing`
         # watchdog: a check must terminate whatever the code under test does
         self.dead = None           # reason the host was silenced, if it was
         self.max_blocks = 4000     # atomic blocks per scenario
@@ -227,7 +228,8 @@ class Trace:
             if src is not tr.host:
                 return
             # the full sockaddr: for IPv6 (address, port, flowinfo, scope id) -- "to that address" includes the scope of a link-local address
-            rec = dict(t=t + T0, to=(addr[0], addr[1]), to_full=tuple(addr), akey=(addr[0],) + tuple(addr[2:]), data=bytes(data), sock=tr.last_sock)
+            rec = dict(t=t + T0, to=(addr[0], addr[1]), to_full=tuple(addr), akey=(addr[0],) + tuple(addr[2:]), data=bytes(data), sock=tr.last_sock,
+                       call=tr.call_no)
             if tr.cur is None:
                 tr.orphans.append(rec)
             else:
@@ -242,6 +244,16 @@ class Trace:
             return sendto
 
         patch(vsim.FakeTransport, "sendto", mk_sendto)
+
+        def mk_send(orig):
+            def async_send(self_, out, *a, **kw):
+                if self_ is zc:
+                    tr.call_no += 1
+                return orig(self_, out, *a, **kw)
+            return async_send
+
+        import zeroconf._core as core
+        patch(core.Zeroconf, "async_send", mk_send)
 
     def uninstall(self):
         for cls, name, orig in reversed(self.saved):
@@ -279,7 +291,12 @@ def parse_query(zc, uni, data, now, scope=None):
             kept = qh._answer_question(q, s.strategy_type, s.types, s.services, DNSRRSet(list(ans)))
             cands = [(uni.id(r), int(r.ttl), sorted(uni.id(a) for a in adds), r not in kept) for r, adds in ans.items()]
             items.append((bool(q.unique), cands))
-    known = [(uni.id(r), int(r.ttl)) for r in m.answers()]
+    # known answers are numbered as the responder compares them with its own records: a tree with the C03 repair of scoped known
+    # answers (`_without_scope_id` in query_handler.py) drops the scope id an IPv6 socket stamps on AAAA records first; the
+    # unrepaired tree compares them as parsed (the harness follows whichever tree it runs on)
+    import zeroconf._handlers.query_handler as _qh
+    _strip = getattr(_qh, "_without_scope_id", None)
+    known = [(uni.id(_strip(r) if _strip else r), int(r.ttl)) for r in m.answers()]
     pkt = dict(now=int(now), id=m.id, flags=m.flags, num_auth=m._num_authorities, nq=len(m._questions),
                q0type=m._questions[0].type if m._questions else 0, items=items, known=known,
                questions=[(q.name, q.type, q.class_, bool(q.unique)) for q in m._questions])
